@@ -52,6 +52,8 @@ ASSUMPTIONS = [
     '.rx.and_/.rx.or_ and the other helpers are strict functions of their evaluated operands (no short-circuit claimed)',
     'not modelled: async / generator operations (internal Trigger), plain attribute access (`expr.attr`), slices and nested containers of references as operands, kwargs, raw bound functions (not wrapped in rx) as operands, rx.when/buffer/updating/resolve, batched updates of several parameters',
     'an input update is atomic for precedence -1 watchers (all invalidations run before any precedence 0 consumer) - checked by correspondence, not proved',
+    'operator_table_complete (over the generated RxOps table) lives in the same module as the other theorems: a broken table makes the whole module fail to build, so the evidence then reports every C09 obligation as undischarged, not only that one',
+    'the full statement is false of the code (C09_full_refuted); what is proved is C09_partial under H1 (no where result handed to a consumer), H2 (is_equal does not identify different values), H3 (no exception escapes an input update) - the three known findings',
 ]
 RULE = ('corpus + directed prefix (every API form on a root of each type with literal / rx / Parameter operand, error-recovery, shared '
         'sub-expressions, input as root and operand, bind, where in both branches, watch, None roots, minimal forms of the known findings) '
